@@ -192,7 +192,15 @@ func searchR(bin, work, prop string, seed uint64, tc tierCfg) *raceSummary {
 						viol: []sim.Violation{{Prop: prop, Rule: "panic", Detail: crashHeadline(res.stderr), Feat: map[string]string{"where": crashSite(res.stderr)}}}})
 				}
 				if res.hang {
-					rs.exit2 = fmt.Sprintf("engine R run %d hung", res.crashRun)
+					// same triage as engine S: a library goroutine sitting on a sync
+					// mutex for ever (here typically two of them, a lock-order inversion
+					// met under real parallelism) is the client's deadlock
+					if why := libraryDeadlock(prop, res.crashRun); why != "" {
+						rs.viols = append(rs.viols, violRec{run: res.crashRun, seed: rseed, race: true, sc: sim.Generate(prop, rseed, res.crashRun), raceReport: "hang: " + why,
+							viol: []sim.Violation{{Prop: prop, Rule: "blocks-forever", Detail: fmt.Sprintf("engine R run %d never finished: %s", res.crashRun, why)}}})
+					} else {
+						rs.exit2 = fmt.Sprintf("engine R run %d hung", res.crashRun)
+					}
 				}
 				mu.Unlock()
 			}
